@@ -21,6 +21,11 @@ def gen_backend_consts():
         raise ExtractError(f"{p}: handle_conn: the timeout path no longer passes Some(MAX_BACKEND_RETRY)")
     if conn.count("handle_conn_err(retry_times_opt, failed_tasks, &err)") != 2:
         raise ExtractError(f"{p}: handle_conn: expected two handle_conn_err(retry_times_opt, ..) calls (write, read)")
+    if not re.search(r"let\s+retry_times_opt\s*=\s*match\s+retry_state_opt\.take\(\)", conn) or \
+       conn.index("let retry_times_opt") < conn.index("poll_fn"):
+        raise ExtractError(f"{p}: handle_conn: retry_times_opt is no longer computed per poll from "
+                           "retry_state_opt.take() (F08b fix applied?): UmModel/BackendConn.lean `retryTimes` "
+                           "and C08_retry_unbounded must be updated")
     if not re.search(r"if\s+!task_empty\s*&&\s*!response_received", conn):
         raise ExtractError(f"{p}: handle_conn: timeout condition changed")
     back = fn_body(t, "handle_backend", p)
